@@ -492,7 +492,7 @@ impl<'s, 'd> Gen<'s, 'd> {
         if !vs.is_empty() && self.src.chance(3, 4) {
             return E::Var(self.src.pick(&vs).clone());
         }
-        let consts: Vec<String> = self.m.consts.iter().filter(|c| c.ty == *t).map(|c| c.name.clone()).collect();
+        let consts: Vec<String> = self.m.consts.iter().filter(|c| c.ty == *t && !c.as_data).map(|c| c.name.clone()).collect();
         if !consts.is_empty() && self.src.chance(1, 3) {
             self.mark("const-use");
             return E::Const(self.src.pick(&consts).clone());
@@ -960,6 +960,40 @@ impl<'s, 'd> Gen<'s, 'd> {
         // (cast mostly fails), or a Data variable in scope
         let dvars = self.vars_of(sc, &Ty::Data);
         let data_e = match self.src.weighted(&[6, 2, if dvars.is_empty() { 0 } else { 4 }]) {
+            0 if *t != Ty::Data && !t.has_fn() && !t.has_var() && self.src.chance(1, 6) => {
+                // a module constant declared `const kd: Data = <literal of type t>`; the literal
+                // must pin its own type: an empty list or a None would leave the element type
+                // (and with it the Data representation) to inference defaults
+                let existing: Vec<String> = self.m.consts.iter().filter(|c| c.as_data && c.ty == *t).map(|c| c.name.clone()).collect();
+                let ambiguous = |m: &Module, e: &E| {
+                    let shown = print_expr(m, e);
+                    shown.contains("[]") || shown.contains("None")
+                };
+                let mut chosen: Option<String> = None;
+                if !existing.is_empty() && self.src.bool() {
+                    chosen = Some(self.src.pick(&existing).clone());
+                } else {
+                    for _ in 0..6 {
+                        let value = self.lit(t, 2);
+                        if !ambiguous(&self.m, &value) {
+                            let name = format!("kd{}", self.m.consts.len());
+                            self.m.consts.push(ConstDecl { name: name.clone(), ty: t.clone(), value, as_data: true });
+                            chosen = Some(name);
+                            break;
+                        }
+                    }
+                }
+                match chosen {
+                    Some(name) => {
+                        self.mark("const-declared-as-data");
+                        E::ToData(bx(E::Const(name)), t.clone())
+                    }
+                    None => {
+                        let e = self.expr(sc, t, d);
+                        E::ToData(bx(e), t.clone())
+                    }
+                }
+            }
             0 => {
                 let e = self.expr(sc, t, d);
                 if *t == Ty::Data { e } else { E::ToData(bx(e), t.clone()) }
@@ -1692,7 +1726,7 @@ impl<'s, 'd> Gen<'s, 'd> {
                 continue;
             }
             let value = self.lit(&t, 2);
-            self.m.consts.push(ConstDecl { name: format!("k{k}"), ty: t, value });
+            self.m.consts.push(ConstDecl { name: format!("k{k}"), ty: t, value, as_data: false });
         }
         let nh = self.src.below(self.cfg.max_helpers + 1);
         for k in 0..nh {
